@@ -43,9 +43,9 @@ type (
 		a, b expr
 		line int
 	}
-	eAnd   struct{ a, b expr }
-	eOr    struct{ a, b expr }
-	eUnop  struct {
+	eAnd  struct{ a, b expr }
+	eOr   struct{ a, b expr }
+	eUnop struct {
 		op   string
 		a    expr
 		line int
@@ -74,9 +74,9 @@ type (
 		exprs   []expr
 		line    int
 	}
-	sCall   struct{ call expr }
-	sDo     struct{ body []stmt }
-	sWhile  struct {
+	sCall  struct{ call expr }
+	sDo    struct{ body []stmt }
+	sWhile struct {
 		cond expr
 		body []stmt
 	}
@@ -90,10 +90,10 @@ type (
 		els    []stmt // nil when absent
 	}
 	sNumFor struct {
-		slot              int
+		slot               int
 		start, limit, step expr // step may be nil
-		body              []stmt
-		line              int
+		body               []stmt
+		line               int
 	}
 	sGenFor struct {
 		slots []int
